@@ -190,6 +190,9 @@ func cmdVerify(args []string) {
 	fmt.Printf("functions=%d discharged=%d failed=%d\n", len(results), nOK, nFail)
 }
 
+// retryFilter: which functions' undecided obligations deserve the sequential second chance
+var retryFilter func(fnKey string) bool
+
 // verifyAll generates and discharges the obligations of the given functions in parallel.
 func verifyAll(w *World, sp *Specs, mods *ModAnalysis, keys []string, families map[string]bool, work string, timeoutS int, confirm bool) []*FuncResult {
 	var results []*FuncResult
@@ -233,6 +236,32 @@ func verifyAll(w *World, sp *Specs, mods *ModAnalysis, keys []string, families m
 	}
 	close(jobs)
 	wg.Wait()
+	// second chance, without load: obligations that were not decided (timeout/unknown) in the parallel pass
+	// are re-run one at a time with a longer limit, so that a busy machine cannot turn into a false alarm
+	var retry []*Obligation
+	for _, r := range results {
+		for _, o := range r.Obligations {
+			if retryFilter != nil && !retryFilter(r.Key) {
+				continue
+			}
+			if o.Result != nil && o.Family != "VACUITY" && (o.Result.Status == "timeout" || o.Result.Status == "unknown" || (o.Result.Status == "sat" && o.Result.Reduced)) {
+				retry = append(retry, o)
+			}
+		}
+	}
+	if len(retry) > 0 && len(retry) <= 40 {
+		for _, o := range retry {
+			lim := timeoutS * 4
+			if lim < 30 {
+				lim = 30
+			}
+			r2 := Solve(o, work, lim, confirm)
+			r2.Tried = append(append([]string{}, o.Result.Tried...), append([]string{"retry:"}, r2.Tried...)...)
+			if r2.Status == "unsat" || !(o.Result.Status == "sat") {
+				o.Result = r2
+			}
+		}
+	}
 	return results
 }
 
